@@ -252,6 +252,13 @@ class C11(Check):
             out.cls('image_in_glass_cutoff_convention')     # F-number of an image formed in glass: convention, not judged
         # geometric MTF
         npts = 32
+        # the uniform grid used here has more points than the PSF's own sampling checked above: if one of its rays fails
+        # the spot has no histogram (numpy rejects a NaN range) and there is no geometric MTF to judge
+        o.trace(fld[0], fld[1], w, N // 2 + 3, 'uniform')
+        if not (np.all(np.isfinite(np.array(o.surface_group.x[-1], dtype=float))) and
+                np.all(np.isfinite(np.array(o.surface_group.y[-1], dtype=float)))):
+            out.cls('geometric_mtf_rays_fail')
+            return
         for scale_flag in (False, True):
             gm = GeometricMTF(o, fields=[fld], wavelength=w, num_rays=N // 2 + 3, distribution='uniform', num_points=npts,
                               scale=scale_flag)
